@@ -646,23 +646,117 @@ def r6_chiplets(ctx, F):
             ctx.violation("chiplet-selector|%d" % i, "air/src/constraints/chiplets/mod.rs", "chiplet selector constraint %s missing" % V.pretty(w))
 
 
+def latex_constraint_poly(expr, resolve, presub=()):
+    """polynomial of a documented constraint's left-hand side; resolve(base, subscript, primed) -> Poly"""
+    from . import decdocs
+    e = expr
+    e = re.sub(r"\\text\s*\{[^}]*\}\s*=\s*\d+", "", e)
+    e = re.sub(r"\\text\s*\{[^}]*\}.*$", "", e)
+    e = e.replace("\\left", "").replace("\\right", "")
+    for a_, b_ in presub:
+        e = re.sub(a_, b_, e)
+    e = decdocs.expand_sums(e)
+    e = e.replace("\\cdot", "*")
+    env = {}
+
+    def name(m):
+        base, p1, sub, p2 = m.group(1), m.group(2), m.group(3), m.group(4)
+        v = resolve(base, sub, bool(p1 or p2))
+        ident = "V%d" % len(env)
+        env[ident] = v
+        return ident
+    e = re.sub(r"(?<![A-Za-z\\])([a-z])('?)(?:_\{?([0-9a-z])\}?)?('?)", name, e)
+    e = re.sub(r"(V\d+)\s*\^\s*2", r"(\1*\1)", e)
+    # ( ... )^2
+    while True:
+        m = re.search(r"\)\s*\^\s*2", e)
+        if not m:
+            break
+        j, depth = m.start(), 0
+        while True:
+            if e[j] == ")":
+                depth += 1
+            elif e[j] == "(":
+                depth -= 1
+                if depth == 0:
+                    break
+            j -= 1
+        grp = e[j:m.start() + 1]
+        e = e[:j] + "(" + grp + "*" + grp + ")" + e[m.end():]
+    e = re.sub(r"2\s*\^\s*\{?(\d+)\}?", lambda m: str(2 ** int(m.group(1))), e)
+    e = re.sub(r"(?<![V\d])(\d+)", r"K(\1)", e)
+    env["K"] = Poly.const
+    if not re.match(r"^[\sV\dK()+\-*]+$", e):
+        raise ValueError("unsupported formula text %r" % e)
+    return eval(e, {"__builtins__": {}}, env)
+
+
+def documented_chiplet_constraints(ctx, F, V, chip, docfile, after, group, resolve, presub, index_names, sel_var, floor):
+    """every `> $$ ... = 0 $$` constraint of the given design document (from the marker `after` on) is present, up to a unit,
+    among `group`; selector-gated alternatives may be implemented as their sum"""
+    path = os.path.join(extract.REPO, docfile)
+    txt = open(path).read()
+    start = txt.index(after) if after and after in txt else 0
+    docs = []
+    for m in re.finditer(r"^>\s*\$\$\n(.*?)\n\$\$", txt[start:], re.S | re.M):
+        body = m.group(1).strip()
+        if "= 0" not in body or "\\prod" in body or "alpha" in body or "b_{chip}" in body:
+            continue
+        lhs = body.split("= 0")[0]
+        line = txt[:start + m.start()].count("\n") + 2
+        quant = re.search(r"\\text\{\s*for\s*\}\s*([a-z])\s*\\in\s*\\\{([0-9,\s]+)\\\}", body)
+        if quant:
+            insts = [re.sub(r"_%s\b" % quant.group(1), "_%s" % k.strip(), lhs) for k in quant.group(2).split(",")]
+        elif re.search(r"[%s]_i" % index_names, lhs) and "\\sum" not in lhs:
+            insts = [lhs.replace("_i", "_%d" % i) for i in range(4)]
+        else:
+            insts = [lhs]
+        for f in insts:
+            docs.append((line, f.strip()))
+    ctx.floor("documented-%s-constraints" % chip, len(docs), floor)
+    parsed = []
+    for line, f in docs:
+        try:
+            parsed.append((line, f, latex_constraint_poly(f, resolve, presub)))
+        except (ValueError, SyntaxError, TypeError, NameError, KeyError) as e:
+            ctx.inst(key="%s-doc|%s" % (chip, re.sub(r"\s+", "", f)[:60]), nontrivial=True)
+            ctx.violation("UNANALYSABLE|%s-doc|%s" % (chip, re.sub(r"\s+", "", f)[:40]), "%s:%d" % (docfile, line), "cannot read the formula: %s" % str(e)[:160])
+    unmatched = [(l_, f_, w_) for l_, f_, w_ in parsed if not any(unit_multiple(p, w_) for p in group)]
+    merged = set()
+    if len(unmatched) >= 2 and sel_var is not None:
+        tot = Poly()
+        for l_, f_, w_ in unmatched:
+            tot = tot + w_
+        if all(sel_var in w_.vars() for l_, f_, w_ in unmatched) and any(unit_multiple(p, tot) for p in group):
+            merged = {f_ for l_, f_, w_ in unmatched}
+    for line, f, want in parsed:
+        ctx.inst(key="%s-doc|%s" % (chip, re.sub(r"\s+", "", f)[:60]), nontrivial=True)
+        ok = f in merged or any(unit_multiple(p, want) for p in group)
+        ctx.oblig(ok)
+        if not ok:
+            ctx.violation("%s-doc-constraint|%s" % (chip, re.sub(r"\s+", "", f)[:60]), "%s:%d" % (docfile, line),
+                          "the documented %s chiplet constraint %s = 0 is not among the chiplet's transition constraints (up to a unit): %s" % (chip, f, V.pretty(want)[:200]))
+
+
+def chiplet_groups(F, V):
+    lo, hi = V.R["ranges"]["chiplets"]
+    slots = V.by_name["Noop"][lo:hi]
+    n_sel = F.const(r"^miden_air::constraints::chiplets::NUM_CONSTRAINTS$")
+    n_h = F.const(r"^miden_air::constraints::chiplets::hasher::NUM_CONSTRAINTS$")
+    n_b = F.const(r"^miden_air::constraints::chiplets::bitwise::NUM_CONSTRAINTS$")
+    n_m = F.const(r"^miden_air::constraints::chiplets::memory::NUM_CONSTRAINTS$")
+    return {"bitwise": slots[n_sel + n_h:n_sel + n_h + n_b], "memory": slots[n_sel + n_h + n_b:n_sel + n_h + n_b + n_m]}
+
+
 def r6b_bitwise_docs(ctx, F):
     """every constraint formula of docs/src/design/chiplets/bitwise.md (selector, input decomposition incl. the binary checks of
     all eight bit columns, output aggregation) is present, up to a unit, among the bitwise chiplet's transition constraints with
     the chiplet flag set"""
-    from . import decdocs
-    path = os.path.join(extract.REPO, "docs/src/design/chiplets/bitwise.md")
-    txt = open(path).read()
     V = AirView(F)
-    lo, hi = V.R["ranges"]["chiplets"]
-    slots = V.by_name["Noop"][lo:hi]
     ch = F.const(r"^miden_air::trace::CHIPLETS_OFFSET$")
-    n_sel = F.const(r"^miden_air::constraints::chiplets::NUM_CONSTRAINTS$")
-    n_h = F.const(r"^miden_air::constraints::chiplets::hasher::NUM_CONSTRAINTS$")
-    n_b = F.const(r"^miden_air::constraints::chiplets::bitwise::NUM_CONSTRAINTS$")
     nper = F.const(r"^miden_air::constraints::chiplets::hasher::NUM_PERIODIC_COLUMNS$")
-    # the chiplet flag of the bitwise section is s0 * (1 - s1') ; both forms of the second selector are set to 0
-    group = [p.subst({"c%d" % ch: 1, "c%d" % (ch + 1): 0, "n%d" % (ch + 1): 0}) for p in slots[n_sel + n_h:n_sel + n_h + n_b] if isinstance(p, Poly)]
+    # the chiplet flag of the bitwise section is s0 * (1 - s1')
+    group = [p.subst({"c%d" % ch: 1, "c%d" % (ch + 1): 0, "n%d" % (ch + 1): 0}) for p in chiplet_groups(F, V)["bitwise"] if isinstance(p, Poly)]
     rng = lambda name: F.const(r"^miden_air::trace::chiplets::%s$" % name)
     col = {"s": rng("BITWISE_SELECTOR_COL_IDX"), "a": rng("BITWISE_A_COL_IDX"), "b": rng("BITWISE_B_COL_IDX"),
            "z_p": rng("BITWISE_PREV_OUTPUT_COL_IDX"), "z": rng("BITWISE_OUTPUT_COL_IDX")}
@@ -671,72 +765,35 @@ def r6b_bitwise_docs(ctx, F):
         col["a_%d" % i] = a0 + i
         col["b_%d" % i] = b0 + i
 
-    def to_poly(expr):
-        e = expr
-        e = re.sub(r"\\text\s*\{[^}]*\}\s*=\s*\d+", "", e)
-        e = e.replace("\\left", "").replace("\\right", "")
-        e = decdocs.expand_sums(e)
-        e = e.replace("\\cdot", "*")
-        env = {}
+    def resolve(base, sub, primed):
+        key = base + ("_" + sub if sub is not None else "")
+        if base == "k":
+            return Poly.var("p%d" % (nper + int(sub)))
+        return Poly.var(("n" if primed else "c") + str(col[key]))
+    documented_chiplet_constraints(ctx, F, V, "bitwise", "docs/src/design/chiplets/bitwise.md", None, group, resolve, (), "ab", "c%d" % col["s"], 15)
 
-        def name(m):
-            base, p1, sub, p2 = m.group(1), m.group(2), m.group(3), m.group(4)
-            key = base + ("_" + sub if sub is not None else "")
-            primed = bool(p1 or p2)
-            if base == "k":
-                v = Poly.var("p%d" % (nper + int(sub)))
-            elif key in col:
-                v = Poly.var(("n" if primed else "c") + str(col[key]))
-            else:
-                raise ValueError("unknown name %s" % key)
-            ident = "V%d" % len(env)
-            env[ident] = v
-            return ident
-        e = re.sub(r"(?<![A-Za-z\\])([abzsk])('?)(?:_\{?([0-9p])\}?)?('?)", name, e)
-        e = re.sub(r"(V\d+)\s*\^\s*2", r"(\1*\1)", e)
-        e = re.sub(r"2\s*\^\s*(\d+)", lambda m: str(2 ** int(m.group(1))), e)
-        e = re.sub(r"(?<![V\d])(\d+)", r"K(\1)", e)
-        env["K"] = Poly.const
-        if not re.match(r"^[\sV\dK()+\-*]+$", e):
-            raise ValueError("unsupported formula text %r" % e)
-        return eval(e, {"__builtins__": {}}, env)
 
-    docs = []
-    for m in re.finditer(r"^> \$\$\n(.*?)\n\$\$", txt, re.S | re.M):
-        body = m.group(1).strip()
-        if "= 0" not in body or "\\prod" in body or "alpha" in body:
-            continue
-        lhs = body.split("= 0")[0]
-        line = txt[:m.start()].count("\n") + 2
-        insts = [lhs.replace("_i", "_%d" % i) for i in range(4)] if re.search(r"[ab]_i", lhs) and "\\sum" not in lhs else [lhs]
-        for f in insts:
-            docs.append((line, f.strip()))
-    ctx.floor("documented-bitwise-constraints", len(docs), 15)
-    parsed = []
-    for line, f in docs:
-        try:
-            parsed.append((line, f, to_poly(f)))
-        except (ValueError, SyntaxError, TypeError, NameError) as e:
-            ctx.inst(key="bitwise-doc|%s" % re.sub(r"\s+", "", f)[:60], nontrivial=True)
-            ctx.violation("UNANALYSABLE|bitwise-doc|%s" % re.sub(r"\s+", "", f)[:40], "docs/src/design/chiplets/bitwise.md:%d" % line, "cannot read the formula: %s" % str(e)[:160])
-    # selector-gated alternatives (1 - s) * X_and and s * X_xor may be implemented as their sum: with s binary (a documented
-    # constraint itself) the sum vanishes iff the active alternative does
-    sel = Poly.var("c%d" % col["s"])
-    unmatched = [(l_, f_, w_) for l_, f_, w_ in parsed if not any(unit_multiple(p, w_) for p in group)]
-    merged = set()
-    if len(unmatched) >= 2:
-        tot = Poly()
-        for l_, f_, w_ in unmatched:
-            tot = tot + w_
-        if all(sel.vars() <= w_.vars() for l_, f_, w_ in unmatched) and any(unit_multiple(p, tot) for p in group):
-            merged = {f_ for l_, f_, w_ in unmatched}
-    for line, f, want in parsed:
-        ctx.inst(key="bitwise-doc|%s" % re.sub(r"\s+", "", f)[:60], nontrivial=True)
-        ok = f in merged or any(unit_multiple(p, want) for p in group)
-        ctx.oblig(ok)
-        if not ok:
-            ctx.violation("bitwise-doc-constraint|%s" % re.sub(r"\s+", "", f)[:60], "docs/src/design/chiplets/bitwise.md:%d" % line,
-                          "the documented bitwise chiplet constraint %s = 0 is not among the chiplet's transition constraints (up to a unit): %s" % (f, V.pretty(want)[:200]))
+def r6c_memory_docs(ctx, F):
+    """every constraint of the `AIR constraints` section of docs/src/design/chiplets/memory.md (d_inv / n0 / n1 definitions,
+    selector rules, delta decomposition, zero initialisation, value copy) is present among the memory chiplet's constraints"""
+    V = AirView(F)
+    ch = F.const(r"^miden_air::trace::CHIPLETS_OFFSET$")
+    # memory flag: s0 * s1 * (1 - s2')
+    group = [p.subst({"c%d" % ch: 1, "c%d" % (ch + 1): 1, "c%d" % (ch + 2): 0, "n%d" % (ch + 2): 0}) for p in chiplet_groups(F, V)["memory"] if isinstance(p, Poly)]
+    rng = lambda name: F.const(r"^miden_air::trace::chiplets::%s$" % name)
+    sel0 = rng("MEMORY_SELECTORS_COL_IDX")
+    v0 = rng("MEMORY_V_COL_RANGE")["fields"][0]
+    col = {"c": rng("MEMORY_CTX_COL_IDX"), "a": rng("MEMORY_ADDR_COL_IDX"), "i": rng("MEMORY_CLK_COL_IDX"), "t": rng("MEMORY_D_INV_COL_IDX"),
+           "d_0": rng("MEMORY_D0_COL_IDX"), "d_1": rng("MEMORY_D1_COL_IDX"), "s_0": sel0, "s_1": sel0 + 1}
+    for i in range(4):
+        col["v_%d" % i] = v0 + i
+
+    def resolve(base, sub, primed):
+        key = base + ("_" + sub if sub is not None else "")
+        return Poly.var(("n" if primed else "c") + str(col[key]))
+    presub = ((r"\\Delta\s*c", "(c' - c)"), (r"\\Delta\s*a", "(a' - a)"), (r"\\Delta\s*i", "(i' - i - 1)"),
+              (r"n_0", "((c' - c) \\\\cdot t')"), (r"n_1", "((a' - a) \\\\cdot t')"))
+    documented_chiplet_constraints(ctx, F, V, "memory", "docs/src/design/chiplets/memory.md", "### AIR constraints", group, resolve, presub, "v", None, 15)
 
 
 def run(ctx, F):
@@ -755,4 +812,5 @@ def run(ctx, F):
     ctx.run_rule("C04-R4", "stack depth / overflow bookkeeping constraints in canonical form per shift class", r4_overflow, F)
     ctx.run_rule("C04-R5", "range-checker transition roots {0,3^0..3^7} and the b_range LogUp identity", r5_range, F)
     ctx.run_rule("C04-R6b", "bitwise chiplet: every documented constraint (design/chiplets/bitwise.md), including the binary checks of all eight decomposition columns, is present among the chiplet's constraints", r6b_bitwise_docs, F)
+    ctx.run_rule("C04-R6c", "memory chiplet: every documented constraint of design/chiplets/memory.md (AIR constraints section) is present among the chiplet's constraints", r6c_memory_docs, F)
     ctx.run_rule("C04-R6", "chiplet constraint slots gated by their selectors; listed next-row columns occur; selector constraints exact", r6_chiplets, F)
